@@ -10,6 +10,7 @@ import (
 	"fmt"
 	"regexp"
 	"sort"
+	"strconv"
 	"strings"
 
 	"github.com/wizenheimer/comet/internal/vrt"
@@ -42,6 +43,7 @@ type vStoreSys struct {
 	session  int
 	maxSess  int
 	compacts int
+	nBg      int               // Compact / Tick operations used (bounded in c09 mode)
 	segNames map[string]string // every segment file ever created -> content hash when completed
 	logSeen  int
 }
@@ -59,6 +61,7 @@ func (s *vStoreSys) Reset() {
 	s.nAdd = 0
 	s.session = 1
 	s.compacts = 0
+	s.nBg = 0
 	s.segNames = map[string]string{}
 	s.logSeen = 0
 	var err error
@@ -99,6 +102,11 @@ func (s *vStoreSys) Enabled() []vOp {
 		ops = append(ops, vOp{K: "Flush"}, vOp{K: "Search", B: 0})
 		if s.session < s.maxSess {
 			ops = append(ops, vOp{K: "CloseReopen"})
+		}
+		if s.nBg < 2 {
+			// background activity that can happen in any session: the compaction check
+			// (threshold not reached in these configurations) and the compaction ticker
+			ops = append(ops, vOp{K: "Compact"}, vOp{K: "Tick"})
 		}
 	}
 	return ops
@@ -173,8 +181,10 @@ func (s *vStoreSys) Apply(op vOp, hist []vOp, check bool) {
 	case "Drain":
 		s.env.do(func() { vrt.Quiesce() })
 	case "Compact":
+		s.nBg++
 		s.env.do(func() { s.st.TriggerCompaction(); vrt.Quiesce() })
 	case "Tick":
+		s.nBg++
 		s.env.do(func() { vtime.FireAll(); vrt.Quiesce() })
 	case "Evict":
 		s.env.do(func() { s.st.segmentManager.EvictAllCaches() })
@@ -349,7 +359,7 @@ func (s *vStoreSys) Key() string {
 		d := s.live[uint32(id)]
 		fmt.Fprintf(&sb, "%d=%d/%v/%v/%v;", id, d.doc, d.durable, s.decodes() > d.decodesAt, s.compacts > d.compactAt)
 	}
-	fmt.Fprintf(&sb, "rem%v n%d sess%d", vSetStr(s.removed), s.nAdd, s.session)
+	fmt.Fprintf(&sb, "rem%v n%d sess%d bg%d", vSetStr(s.removed), s.nAdd, s.session, s.nBg)
 	return sb.String()
 }
 
@@ -412,7 +422,101 @@ func vStoreShards(mode, tier string) []vShard {
 	return sh
 }
 
+// vC09Identifiers: for EVERY N in 1..limit a directory holding one valid segment with
+// identifier N (and, for every tenth N, a second one with identifier N-3) is opened
+// with fresh templates; Add; Flush must create files with an identifier above every
+// identifier present, must not touch the existing files, and a second session must
+// again move on. Covers the digit boundaries 7/8/9/10, 99/100, 999/1000 (decimal vs
+// octal parsing, lexicographic vs numeric order, counting files instead of parsing).
+func vC09Identifiers(c *vCtx, limit int) {
+	cfgS := "c09 segment-identifiers"
+	scfg := vStoreCfg{Mem: 2, Thr: 1, Comp: 1000000, Tmpl: "vtm", Vec: "flat"}
+	// a valid segment's four files, produced by a real flush
+	h := vCrashRecord(vCrashCfg{Rounds: 1, InFlight: "none", Tmpl: "vtm"})
+	if h.dead != "" {
+		c.Violation("history-aborted", "", cfgS, nil, h.dead)
+		return
+	}
+	src := h.snap.Files()
+	for n := 1; n <= limit; n++ {
+		if n%64 == 0 && c.Expired() {
+			c.Bound = fmt.Sprintf("identifiers 1..%d", n-1)
+			return
+		}
+		img := vos.NewMemFS()
+		present := []int{n}
+		if n%10 == 0 && n > 3 {
+			present = append(present, n-3)
+		}
+		for _, id := range present {
+			for p, b := range src {
+				if m := vSegRe.FindStringSubmatch(p); m != nil {
+					img.WriteFileRaw(strings.Replace(p, "_"+m[1]+".", fmt.Sprintf("_%06d.", id), 1), b)
+				}
+			}
+		}
+		before := img.Files()
+		hist := []string{fmt.Sprintf("directory with segments %v; open; AddWithID; Flush; Close; open; AddWithID; Flush", present)}
+		env := vStoreBegin(nil, img)
+		maxSeen := n
+		for sess := 0; sess < 2; sess++ {
+			st, err := env.open(scfg.config())
+			if err != nil || env.dead != "" {
+				c.Violation("reopen-failed", "", cfgS, hist, fmt.Sprint(err, env.dead))
+				break
+			}
+			logStart := len(env.fs.Log)
+			env.do(func() {
+				st.AddWithID(uint32(7000+sess), []float32{2, 2}, "delta", map[string]interface{}{"s": "y"})
+				st.Flush()
+				st.Close()
+			})
+			if env.dead != "" {
+				c.Violation("execution-aborted", vDeadCause(env.dead), cfgS, hist, env.dead)
+				break
+			}
+			created := 0
+			newMax := maxSeen
+			for _, op := range env.fs.Log[logStart:] {
+				if m := vSegRe.FindStringSubmatch(op.Path); m != nil && op.Kind == "create" {
+					id, _ := strconv.Atoi(m[1])
+					created++
+					if id <= maxSeen {
+						c.Violation("segment-identifier-reused", "", cfgS, hist, fmt.Sprintf("session %d created %s although identifiers up to %d exist", sess+1, op.Path, maxSeen))
+					}
+					if id > newMax {
+						newMax = id
+					}
+				}
+			}
+			if created == 0 {
+				c.Violation("flush-wrote-nothing", "", cfgS, hist, "Add; Flush created no segment file")
+			}
+			maxSeen = newMax
+			c.Evaluations++
+			c.Transitions++
+		}
+		after := env.fs.Files()
+		for p, b := range before {
+			if string(after[p]) != string(b) {
+				c.Violation("existing-segment-file-changed", "", cfgS, hist, fmt.Sprintf("%s was modified or removed by a later flush", p))
+			}
+		}
+		env.end()
+		c.Traces++
+		c.NewState(fmt.Sprintf("%s|%d", cfgS, n))
+		c.Nontrivial(fmt.Sprintf("%s|%d", cfgS, n))
+	}
+	c.Sample("segments [10 7] on disk; open; AddWithID; Flush; Close; open; AddWithID; Flush => identifiers 11, 12")
+	c.Bound = fmt.Sprintf("identifiers 1..%d", limit)
+}
+
 func vStoreReplay(c *vCtx, v *vViolation) bool {
+	if v.Config == "c09 segment-identifiers" {
+		vC09Identifiers(c, 1100)
+		_, ok := c.viol[v.Sig()]
+		return ok
+	}
 	if strings.HasPrefix(v.Config, "sched ") {
 		return vSchedReplay(c, v)
 	}
@@ -443,9 +547,17 @@ func init() {
 	})
 	vRegister(&vCheck{
 		ID: "C09", Level: "model_checking", Engine: "histmc",
-		Rule:        "BFS over multi-session histories (AddWithID | Flush | Search)* CloseReopen ... with up to 3 (quick) / 4 (thorough) sessions, reopening the same in-memory directory with FRESHLY constructed templates, for memtable limits {1 doc, 2 docs, unlimited} x vector template {flat, hnsw, trained ivf} x {with, without text+metadata}; after every transition every document added before the last Flush/Close that returned nil must be found by the vector, text and metadata probes, in the session that made it durable and in every later one; from the file-system log: no segment file name *_NNNNNN.bin.gz is ever created twice (identifiers never reused). Non-trivial = distinct (config, history, query) with a durable document, and distinct segment-file creations.",
+		Rule:        "BFS over multi-session histories (AddWithID | Flush | Search)* CloseReopen ... with up to 3 (quick) / 4 (thorough) sessions, reopening the same in-memory directory with FRESHLY constructed templates, for memtable limits {1 doc, 2 docs, unlimited} x vector template {flat, hnsw, trained ivf} x {with, without text+metadata}; after every transition every document added before the last Flush/Close that returned nil must be found by the vector, text and metadata probes, in the session that made it durable and in every later one; from the file-system log: no segment file name *_NNNNNN.bin.gz is ever created twice (identifiers never reused); background compaction checks / ticks (threshold not reached) are part of the alphabet; plus the identifier sweep: for EVERY N in 1..1100 (12000 thorough) a directory holding a valid segment N is opened, flushed to, closed, reopened and flushed to again: new identifiers above every existing one, existing files byte-identical. Non-trivial = distinct (config, history, query) with a durable document, and distinct segment-file creations.",
 		Assumptions: []string{"process death is modelled by reopening the directory image (everything handed to the OS survives)", "known shared-template defect: with >= 2 segments on disk all of them are decoded into the same template objects and the last one wins; identified by that witness"},
-		Shards:      func(tier string) []vShard { return vStoreShards("c09", tier) },
-		Replay:      vStoreReplay,
+		Shards: func(tier string) []vShard {
+			sh := vStoreShards("c09", tier)
+			limit := 1100
+			if tier == "thorough" {
+				limit = 12000
+			}
+			sh = append(sh, vShard{Name: "c09/segment-identifiers", Run: func(c *vCtx) { vC09Identifiers(c, limit) }})
+			return sh
+		},
+		Replay: vStoreReplay,
 	})
 }
